@@ -72,7 +72,12 @@ def main():
         else:
             for chk in [pid] + also:
                 t0 = time.time()
+                # the evidence files describe the UNCHANGED tree: keep them as they were
+                evf = os.path.join(ROOT, "evidence", chk + ".json")
+                saved = open(evf).read() if os.path.exists(evf) else None
                 rc, out = sh([os.path.join(ROOT, "check"), chk, "--tier", "quick"], cwd=ROOT, timeout=7200)
+                if saved is not None:
+                    open(evf, "w").write(saved)
                 vio = [l for l in out.splitlines() if l.startswith("VIOLATION") or l.startswith("# ")]
                 results[chk] = {"exit": rc, "lines": vio[:6], "seconds": round(time.time() - t0)}
                 # keep the reason from the replay file
